@@ -1,6 +1,6 @@
 (** C09 — property theorems only. *)
 From V Require Import Base.Util Gql.Ast Writer.Wop Ts.TsType Ts.TsDen
-  C10.Model C10.Spec C10.DenLemmas C10.Proofs C10.Examples C09.Model C09.Spec C09.Proofs C09.Proofs2 C09.Examples.
+  C10.Model C10.Spec C10.DenLemmas C10.Proofs C10.Examples C09.Model C09.Spec C09.Proofs C09.Proofs2 C09.Proofs3 C09.Examples.
 
 (** the Variables type, read against the schema declaration's `__OperationInput` namespace,
     decides exactly [Explicit_c]: whenever it decides membership of an assignment, it decides it
@@ -12,6 +12,34 @@ Theorem C09_variables_exact : forall o doc ms ns allow vds f v b,
   explicit_c o doc allow vds v = b.
 Proof. intros. eapply variables_exact; eassumption. Qed.
 Print Assumptions C09_variables_exact.
+
+(** … and it decides every assignment: [[Variables_c(O)]] = Explicit_c(V) *)
+Theorem C09_variables_exact_iff : forall o doc ms ns allow vds v,
+  wf_schema o doc = true -> namespace_members o doc OpIn = Ok ms -> vars_wf doc vds = true ->
+  (In_type (vars_env ms) (variables_type (mkOOpts ns allow) vds) v <-> explicit_c o doc allow vds v = true)
+  /\ (NotIn_type (vars_env ms) (variables_type (mkOOpts ns allow) vds) v <-> explicit_c o doc allow vds v = false).
+Proof. intros. eapply variables_exact_iff; eassumption. Qed.
+Print Assumptions C09_variables_exact_iff.
+
+(** [[Variables_c(O)]] ⊆ Coercible(V), in the membership form *)
+Theorem C09_sound_in : forall o doc ms ns allow vds v,
+  wf_schema o doc = true -> namespace_members o doc OpIn = Ok ms -> vars_wf doc vds = true ->
+  In_type (vars_env ms) (variables_type (mkOOpts ns allow) vds) v -> coercible o doc vds v = true.
+Proof.
+  intros o doc ms ns allow vds v Hwf Hms Hv Hin. eapply explicit_coercible.
+  apply (proj1 (proj1 (variables_exact_iff o doc ms Hwf Hms ns allow vds v Hv))). exact Hin.
+Qed.
+Print Assumptions C09_sound_in.
+
+(** Explicit_c(V) ⊆ [[Variables_c(O)]], in the membership form *)
+Theorem C09_explicit_complete_in : forall o doc ms ns allow vds v,
+  wf_schema o doc = true -> namespace_members o doc OpIn = Ok ms -> vars_wf doc vds = true ->
+  explicit_c o doc allow vds v = true -> In_type (vars_env ms) (variables_type (mkOOpts ns allow) vds) v.
+Proof.
+  intros o doc ms ns allow vds v Hwf Hms Hv He.
+  apply (proj2 (proj1 (variables_exact_iff o doc ms Hwf Hms ns allow vds v Hv))). exact He.
+Qed.
+Print Assumptions C09_explicit_complete_in.
 
 (** [[Variables_c(O)]] ⊆ Coercible(V) *)
 Theorem C09_sound : forall o doc ms ns allow vds f v,
